@@ -49,19 +49,21 @@ func DecodeCacheStrict(data []byte) (CacheDoc, error) {
 			return nil, fmt.Errorf("entry %q lacks secret or lastAccess", name)
 		}
 		var sec struct {
-			Value   *json.RawMessage `json:"Value"`
+			// (not a pointer: a JSON null - how Go renders a nil byte slice, i.e. an empty value - must
+			// arrive here as the text "null", not as an absent field)
+			Value   json.RawMessage  `json:"Value"`
 			Version *json.RawMessage `json:"Version"`
 		}
 		if err := exactFields(*ent.Secret, &sec, "Value", "Version"); err != nil {
 			return nil, fmt.Errorf("entry %q secret: %w", name, err)
 		}
-		if sec.Value == nil || sec.Version == nil {
+		if len(sec.Value) == 0 || sec.Version == nil {
 			return nil, fmt.Errorf("entry %q secret lacks Value or Version", name)
 		}
 		var e CacheEntry
-		if !bytes.Equal(*sec.Value, []byte("null")) {
+		if !bytes.Equal(sec.Value, []byte("null")) {
 			var s string
-			if err := json.Unmarshal(*sec.Value, &s); err != nil {
+			if err := json.Unmarshal(sec.Value, &s); err != nil {
 				return nil, fmt.Errorf("entry %q Value: %w", name, err)
 			}
 			b, err := base64.StdEncoding.DecodeString(s)
